@@ -432,7 +432,7 @@ def rule_W(ck, lib, tag=""):
                     ok = a.get("k") == "Lit" and a["lit"]["t"] == "char" and a["lit"]["v"] < 128
                     ck.judge(ok, "C04-W", tag + "write_char-ascii:%s#%d" % (b["def"].split("::")[-1], n), "write_char(%r)" % (chr(a["lit"]["v"]) if ok else "?"),
                              "write_char is given %s: the shipped writers store `c as u8`, exact only for ASCII literals" % hir.show(a), hir.loc(xn))
-    ck.floor("C04-W", tag + "writer call sites", n, 35)
+    ck.floor("C04-W", tag + "writer call sites", n, 25)
     # shipped Write impls: every method either appends exactly its argument or fails
     impls = [b for b in lib.facts["bodies"] if b.get("trait") == "microscpi::response::Write"]
     ck.floor("C04-W", tag + "Write impl methods", len(impls), 10 if tag else 5)
